@@ -135,6 +135,9 @@ def run(ctx, rep):
                           'output type %s has field %s: %s — its serialisation order differs between processes' % (t, f['name'], f['ty']))
     rep.floor('R1', 'fields', n)
     # ---- R2 --------------------------------------------------------------------------------------------
+    # values are read with a slicer that also knows what a Vec grown in place holds (see C20_helpers.VecSlicer)
+    from . import C20_helpers as H
+    sl = H.vec_slicer(prog)
     sites = {}
     for f in prog.fns.values():
         if f.crate not in ('libcnb', 'libcnb_data', 'libcnb_common') or f.derived:
@@ -168,20 +171,20 @@ def run(ctx, rep):
     for fp in TRIAGED:
         if fp not in sites and fp in prog.fns:
             rep.holds('R2', 'stale-triage/' + fp, '-', 'triaged site no longer iterates a hash container', nontrivial=False)
-    # the two triaged writers really write one file per key (path contains the key, data the value)
+    # the two triaged writers really write one file per key (path contains the key, data the value).  Stated on the
+    # writers' *effects* with a slicer that knows what an in-place grown Vec holds (C20_helpers.VecSlicer): a table of
+    # (dir, delta) pairs extended by the process scopes and then looped over is the same sequence of writes
     E = Effects(prog, sl)
     from . import layer_env_common as L
     wf, wt, wcalls = L.writer_scope_table(prog, sl)
     rep.check(wt.get('process[*]') == ('env.launch', '<key>'), 'R2', 'triage-basis/process-scopes', '%s:%d' % (wf.file, wf.line),
               'each process scope goes to its own directory named by the key', 'process scopes are no longer written one directory per key')
     rx = prog.fn(ROLES['REPLACE_EXECD'] or 'libcnb::layer::shared::replace_layer_exec_d_programs')
-    cp = [(g, c) for g in [rx] + prog.closures_of(rx) for c in g.calls if c.is_('std::fs::copy')]
-    ok = len(cp) == 1
-    if ok:
-        g, c = cp[0]
-        dv = sl.operand(g, c.args[1])
-        ok = any(x[0] == 'call' and x[1] == 'std::iter::Iterator::next' for x in walk(dv)) and any(x == ('const', 'exec.d') for x in walk(dv))
-    rep.check(ok, 'R2', 'triage-basis/exec-d', '%s:%d' % (rx.file, rx.line), 'each exec.d program goes to its own file exec.d/<key>', 'exec.d programs are no longer written one file per key')
+    xpred = TRIAGED_SOURCE['libcnb::layer::shared::replace_layer_exec_d_programs'][1]
+    xrows = H.exec_d_rows(prog, E, rx, lambda v: xpred(rx, v))
+    xbad = ['%s at %s: %s' % (e.kind, e.where(), why) for e, good, why in xrows if not good]
+    rep.check(bool(xrows) and not xbad, 'R2', 'triage-basis/exec-d', '%s:%d' % (rx.file, rx.line), 'each exec.d program goes to its own file exec.d/<key>',
+              'exec.d programs are no longer written one file per key (%s)' % ('; '.join(xbad[:3]) if xbad else 'no file write effect'))
     # the triage argument ("order only affects the sequence of independent files") holds only if every effect of the
     # triaged writers uses the hash container element by element: a value computed from the container as a whole
     # (an index file listing the keys, a joined string) would carry the iteration order into output bytes
